@@ -20,8 +20,11 @@ import (
 	"strings"
 
 	cluster "github.com/envoyproxy/go-control-plane/envoy/config/cluster/v3"
+	corev3 "github.com/envoyproxy/go-control-plane/envoy/config/core/v3"
 	listener "github.com/envoyproxy/go-control-plane/envoy/config/listener/v3"
 	tlsv3 "github.com/envoyproxy/go-control-plane/envoy/extensions/transport_sockets/tls/v3"
+
+	"google.golang.org/protobuf/types/known/structpb"
 
 	networkingapi "istio.io/api/networking/v1alpha3"
 	"istio.io/istio/pilot/pkg/model"
@@ -110,8 +113,10 @@ func (s *sut) clientE2E(ns string, labels [][2]string, clientNs, kind string, po
 	// CDS: the client's outbound cluster
 	clusterName := model.BuildSubsetKey(model.TrafficDirectionOutbound, "", host.Name(hostname), int(port))
 	c := "-"
+	var theCluster *cluster.Cluster
 	for _, cl := range fs.Clusters(client) {
 		if cl.Name == clusterName {
+			theCluster = cl
 			c = "0"
 			if clusterHasTLS(cl) {
 				c = "1"
@@ -119,7 +124,7 @@ func (s *sut) clientE2E(ns string, labels [][2]string, clientNs, kind string, po
 		}
 	}
 	// EDS: the endpoint's tlsMode label as sent to the client
-	e := "-"
+	e, x := "-", "-"
 	for _, cla := range fs.Endpoints(client) {
 		if cla.ClusterName != clusterName {
 			continue
@@ -130,6 +135,9 @@ func (s *sut) clientE2E(ns string, labels [][2]string, clientNs, kind string, po
 				if lbe.GetMetadata().GetFilterMetadata()["envoy.transport_socket_match"].GetFields()["tlsMode"].GetStringValue() == "istio" {
 					e = "1"
 				}
+				// what Envoy does with this endpoint: the FIRST transport socket match of the cluster whose match is
+				// contained in the endpoint's envoy.transport_socket_match metadata, else the cluster's own socket
+				x = selectedSocket(theCluster, lbe.GetMetadata().GetFilterMetadata()["envoy.transport_socket_match"].GetFields())
 			}
 		}
 	}
@@ -156,7 +164,33 @@ func (s *sut) clientE2E(ns string, labels [][2]string, clientNs, kind string, po
 	if len(chains) > 0 {
 		sv = strings.Join(chains, ",")
 	}
-	return fmt.Sprintf("C=%s E=%s BE=%s S=%s", c, e, be, sv)
+	return fmt.Sprintf("C=%s E=%s X=%s BE=%s S=%s", c, e, x, be, sv)
+}
+
+// selectedSocket: "1" if the transport socket Envoy selects for an endpoint with the given
+// envoy.transport_socket_match metadata is TLS, "0" if it is plaintext.
+func selectedSocket(cl *cluster.Cluster, epMeta map[string]*structpb.Value) string {
+	if cl == nil {
+		return "-"
+	}
+	isTLS := func(ts *corev3.TransportSocket) string {
+		if ts != nil && ts.Name == wellknown.TransportSocketTLS {
+			return "1"
+		}
+		return "0"
+	}
+	for _, m := range cl.GetTransportSocketMatches() {
+		ok := true
+		for k, v := range m.GetMatch().GetFields() {
+			if ev, found := epMeta[k]; !found || ev.GetStringValue() != v.GetStringValue() {
+				ok = false
+			}
+		}
+		if ok {
+			return isTLS(m.GetTransportSocket())
+		}
+	}
+	return isTLS(cl.GetTransportSocket())
 }
 
 // clusterHasTLS: a TLS transport socket on the cluster or in one of its transport-socket matches.
@@ -205,8 +239,9 @@ func (s *sut) clientE2EOracle(f []string, res string, fail func(clause, class, d
 	eff := effectiveMode(s.pas, s.root, ns, labels, port)
 	nsLevel := effectiveMode(s.pas, s.root, ns, nil, 0)
 	c, e := field(res, "C"), field(res, "E")
-	composed := c == "1" && e == "1"
-	detail := fmt.Sprintf("kind %s cluster-tls %s endpoint-label %s effective %s namespace-level %s chains %s", kind, c, e, eff, nsLevel, field(res, "S"))
+	// the client originates mutual TLS iff the transport socket Envoy SELECTS for the endpoint is TLS
+	composed := field(res, "X") == "1"
+	detail := fmt.Sprintf("kind %s selected-socket-tls %v cluster-tls %s endpoint-label %s effective %s namespace-level %s chains %s", kind, composed, c, e, eff, nsLevel, field(res, "S"))
 	switch kind {
 	case "normal":
 		if composed != (eff != "DISABLE") {
@@ -214,16 +249,16 @@ func (s *sut) clientE2EOracle(f []string, res string, fail func(clause, class, d
 		}
 	case "noistio":
 		// an endpoint without sidecar must never be sent mutual TLS
-		if e != "0" {
+		if composed || e != "0" {
 			fail("client-composed", "mtls-to-endpoint-without-sidecar", detail)
 		}
 	case "drdisable":
 		// an explicit DestinationRule TLS mode wins over the PeerAuthentication-derived decision
-		if c != "0" || e != "0" {
+		if composed || c != "0" || e != "0" {
 			fail("client-composed", "destination-rule-disable-not-honoured", detail)
 		}
 	case "dristio":
-		if c != "1" || e != "1" {
+		if !composed || c != "1" || e != "1" {
 			fail("client-composed", "destination-rule-istio-mutual-not-honoured", detail)
 		}
 	case "external":
